@@ -116,7 +116,6 @@ type caseA struct {
 	Reason  string    `json:"reason"`
 	Budgets []jBudget `json:"budgets"`
 	Obs     string    `json:"impl"`
-	KfKey   string    `json:"kf_key,omitempty"`
 }
 
 func runBudgets(c *kit.Ctx, now int64, n int, reason v1.DisruptionReason, bs []jBudget) {
@@ -164,24 +163,14 @@ func runBudgets(c *kit.Ctx, now int64, n int, reason v1.DisruptionReason, bs []j
 		c.Count("A:byReason=bounded")
 	}
 	obs := fmt.Sprintf("per-budget %v; byReason=(%d,%v); must=%d", gobs, rv, rerr != nil, must)
-	mk := func(lenient bool) string {
-		return fmt.Sprintf("CaseA %s %s %s %s %s %s (%s, %s) %s", kit.GBool(lenient), kit.GZ(now), kit.GZ(int64(n)), gReason(reason),
-			kit.GList(gb), kit.GList(gobs), kit.GZ(int64(rv)), kit.GBool(rerr != nil), kit.GZ(int64(must)))
-	}
+	term := fmt.Sprintf("CaseA %s %s %s %s %s (%s, %s) %s", kit.GZ(now), kit.GZ(int64(n)), gReason(reason),
+		kit.GList(gb), kit.GList(gobs), kit.GZ(int64(rv)), kit.GBool(rerr != nil), kit.GZ(int64(must)))
 	key := fmt.Sprintf("A:%s|%d|%s|%d", strings.Join(shapes, ";"), n, reason, must)
-	in := caseA{"budget-functions", now, time.Unix(0, now).UTC().Format(time.RFC3339Nano), n, string(reason), bs, obs, ""}
-	if !emptyReasons {
-		c.AddCase(mk(false), in, key)
-		return
+	if emptyReasons {
+		// `reasons: []` decodes to an empty non-nil slice; before 33199adef it applied to no reason
+		c.Count("A:reasons=empty-nonnil")
 	}
-	// An empty non-nil Reasons slice: the code reads it as "applies to no reason" (Reasons == nil is
-	// false, Contains is false) while the property says a budget that lists none applies to all.
-	// The ordinary case checks correspondence + the oracle under the code's reading; its twin checks
-	// the oracle under the property's reading and carries the known-finding key.
-	c.Count("A:reasons=empty-nonnil")
-	c.AddCase(mk(true), in, key)
-	in.KfKey = "reasons-empty-nonnil-slice"
-	c.AddCase(mk(false), in, "")
+	c.AddCase(term, caseA{"budget-functions", now, time.Unix(0, now).UTC().Format(time.RFC3339Nano), n, string(reason), bs, obs}, key)
 }
 
 // ---- generators ----
